@@ -634,6 +634,40 @@ pub fn gen_handmods(run: &mut Run, seed: u64) {
                 let _ = sc.ex.query(2);
             }
             run.add("build", format!("hand-built modifiers {l} {p}"), sc);
+            // the same list with the two parties' psks differing in one bit: every psk NAMED in the list is bound,
+            // however often it is named (C08): some read of the handshake must fail
+            if l.contains("psk") {
+                let mut sc = Sc::new();
+                sc.ex.comment(&format!("hand-built modifier list {l} on {p}, psks differ"));
+                let mut spec_r = mk(false);
+                let bit = r.below(256);
+                for (_, v) in &mut spec_r.psks {
+                    v[bit / 8] ^= 1 << (bit % 8);
+                }
+                let (a, b) = (sc.ex.build(1, &mk(true)), sc.ex.build(2, &spec_r));
+                sc.check_panic(&a, "build with a hand-built modifier list");
+                sc.check_panic(&b, "build with a hand-built modifier list");
+                sc.count("build.handmods_mismatch");
+                if a.is_ok() && b.is_ok() {
+                    let mut refused = false;
+                    for k in 0..5 {
+                        let (w, rd) = if k % 2 == 0 { (1, 2) } else { (2, 1) };
+                        let o = sc.ex.hs_write(w, b"hm", 400);
+                        sc.check_panic(&o, "hs_write (hand-built modifier list)");
+                        let Some(m) = o.bytes().map(<[u8]>::to_vec) else { refused = !sc.ex.query(w).map_or(false, |q| q.fin == Some(true)); break };
+                        let o = sc.ex.hs_read(rd, &m, 400);
+                        sc.check_panic(&o, "hs_read (hand-built modifier list)");
+                        if !o.is_ok() {
+                            refused = true;
+                            break;
+                        }
+                    }
+                    if !refused {
+                        sc.viol("C08", format!("Noise_{p} with the hand-built modifier list [{l}]: the parties' psks differ in one bit and the handshake completed"));
+                    }
+                }
+                run.add("build", format!("hand-built modifiers {l} {p}, psks differ"), sc);
+            }
         }
     }
 }
